@@ -172,7 +172,7 @@ def parallel_leg():
             a = make(cs["dtype"], cs["shape"], cs["layout"], 1000 + ci, d)
             thr = None if cs["delta"] is None else max(a.nbytes + cs["delta"], 0)
             want = summarize(a)
-            res = Parallel(n_jobs=2, backend="loky", max_nbytes=thr, mmap_mode=None if cs.get("mode") == "None" else cs.get("mode", "r"))(delayed(summarize)(x) for x in [a, a, [a][0]])
+            res = Parallel(n_jobs=2, backend=cs.get("backend", "loky"), max_nbytes=thr, mmap_mode=None if cs.get("mode") == "None" else cs.get("mode", "r"))(delayed(summarize)(x) for x in [a, a, [a][0]])
             for r in res:
                 if r[1:] != want[1:]: rec["problems"].append("worker saw %s, parent has %s" % (r[1:], want[1:]))
             rec["seen_as"] = sorted({r[0] for r in res})
